@@ -24,8 +24,9 @@ CONSTANTS Dev,        \* "evo" | "fluent"
           Family      \* which operation alphabet
 
 VARIABLES S, wl, out, allok, prevok, tracked, nodisp, S0, chk, depth,
-          cfg        \* the worklist's public configuration [wlmax, autosplit]; callers may assign it between operations
-vars == <<S, wl, out, allok, prevok, tracked, nodisp, S0, chk, depth, cfg>>
+          cfg,       \* the worklist's public configuration [wlmax, autosplit]; callers may assign it between operations
+          lim        \* the labware's public volume limits
+vars == <<S, wl, out, allok, prevok, tracked, nodisp, S0, chk, depth, cfg, lim>>
 
 P == 1
 Q == 2
@@ -34,10 +35,14 @@ Cfgs == IF Family = "config"
         THEN {[wlmax |-> 2, autosplit |-> TRUE], [wlmax |-> 5, autosplit |-> TRUE], [wlmax |-> 3, autosplit |-> FALSE]}
         ELSE {}
 MaxWlMax == LET all == {WlMax} \cup {c.wlmax : c \in Cfgs} IN CHOOSE m \in all : \A y \in all : y <= m
+\* the volume limits <<min_volume, max_volume>> of the two labware are public attributes as well (family "config":
+\* the plate's maximum is tightened to 3 and widened again, the trough's minimum raised to 4 and lowered again)
+Lim0 == << <<0, 6>>, <<1, 8>> >>
+Lims == IF Family = "config" THEN {Lim0, << <<0, 3>>, <<1, 8>> >>, << <<0, 6>>, <<4, 8>> >>} ELSE {}
 T == [dev |-> Dev, unitc |-> 100, k |-> 1, wlmax |-> cfg.wlmax, wlmaxc |-> cfg.wlmax * 100,
       autosplit |-> cfg.autosplit, diti |-> FALSE,
-      lw |-> << [name |-> "P", g |-> PlateGeom(2, 2), minv |-> 0, maxv |-> 6, grid |-> 11, site |-> 0],
-                [name |-> "Q", g |-> TroughGeom(2, 2), minv |-> 1, maxv |-> 8, grid |-> 12, site |-> 1] >>]
+      lw |-> << [name |-> "P", g |-> PlateGeom(2, 2), minv |-> lim[1][1], maxv |-> lim[1][2], grid |-> 11, site |-> 0],
+                [name |-> "Q", g |-> TroughGeom(2, 2), minv |-> lim[2][1], maxv |-> lim[2][2], grid |-> 12, site |-> 1] >>]
 
 NoLabel == [h |-> FALSE, l |-> "", lines |-> <<>>]
 Lab(s)  == [h |-> TRUE, l |-> s, lines |-> <<s>>]
@@ -207,7 +212,7 @@ InitState(v) ==
                InitComp("Q", T.lw[Q].g, v[Q], [i \in 1..2 |-> [h |-> FALSE, l |-> ""]]) >>,
    hist |-> << InitHist(v[P]), InitHist(v[Q]) >>]
 
-Init == /\ cfg = [wlmax |-> WlMax, autosplit |-> AutoSplit]
+Init == /\ cfg = [wlmax |-> WlMax, autosplit |-> AutoSplit] /\ lim = Lim0
         /\ \E v \in InitVols : S = InitState(v) /\ S0 = InitState(v)
         /\ wl = <<>> /\ out = "ok" /\ allok = TRUE /\ prevok = TRUE /\ tracked = TRUE /\ nodisp = TRUE /\ chk = AllTrue /\ depth = 0
 
@@ -224,21 +229,26 @@ Do(o) == LET r == Apply(S, o) IN
          \* after a partially applied failure the newest entry may lag behind the volumes (see DESIGN section 6)
          /\ chk' = [StepChecks(S, o, r) EXCEPT !.hist = (allok => @)]
          /\ depth' = depth + 1
-         /\ UNCHANGED <<S0, cfg>>
+         /\ UNCHANGED <<S0, cfg, lim>>
 
 \* the caller assigns max_volume / auto_split: no record, no change of any labware
 SetCfg(c) == /\ c # cfg /\ cfg' = c
              /\ out' = "ok" /\ prevok' = allok /\ chk' = AllTrue /\ depth' = depth + 1
-             /\ UNCHANGED <<S, wl, allok, tracked, nodisp, S0>>
+             /\ UNCHANGED <<S, wl, allok, tracked, nodisp, S0, lim>>
+SetLim(lm) == /\ lm # lim /\ lim' = lm
+             /\ out' = "ok" /\ prevok' = allok /\ chk' = AllTrue /\ depth' = depth + 1
+             /\ UNCHANGED <<S, wl, allok, tracked, nodisp, S0, cfg>>
 
-Next == depth < MaxDepth /\ ((\E o \in Ops : Do(o)) \/ (\E c \in Cfgs : SetCfg(c)))
+Next == depth < MaxDepth /\ ((\E o \in Ops : Do(o)) \/ (\E c \in Cfgs : SetCfg(c)) \/ (\E lm \in Lims : SetLim(lm)))
 
 (***************************************************************************)
 (* Invariants                                                              *)
 (***************************************************************************)
 \* the robot's diluter is as large as the largest configuration in use; that every step respects the configuration
 \* current when it was emitted is the step check chk.stepmax
-Robot == Run([T EXCEPT !.wlmax = MaxWlMax, !.wlmaxc = MaxWlMax * 100], S0.vol, S0.comp, wl)
+\* ... and its limits are the loosest ones in use (that every step respects the limits current at its call is chk.limits)
+Robot == Run([T EXCEPT !.wlmax = MaxWlMax, !.wlmaxc = MaxWlMax * 100, !.lw[1].minv = Lim0[1][1], !.lw[1].maxv = Lim0[1][2],
+                       !.lw[2].minv = Lim0[2][1], !.lw[2].maxv = Lim0[2][2]], S0.vol, S0.comp, wl)
 
 \* C01: as long as every operation was a worklist operation that succeeded, the robot executing the worklist reproduces the twin
 InvTwinEqualsRobot == (allok /\ tracked) =>
@@ -251,7 +261,8 @@ InvTwinEqualsRobot == (allok /\ tracked) =>
 InvReplayWithinLimits == (prevok /\ tracked) => Robot.err = ""
 InvStepMax == chk.stepmax /\ \A i \in 1..Len(wl) : wl[i].t \in {"A", "D"} => wl[i].cents <= MaxWlMax * 100
 \* C02
-InvBounds == \A k \in {P, Q} : VolumesWithinLimits(T.lw[k], S.vol[k])
+\* (with the loosest limits; the step check InvLimitsStep uses the limits current at each call)
+InvBounds == \A k \in {P, Q} : VolumesWithinLimits([T.lw[k] EXCEPT !.minv = Lim0[k][1], !.maxv = Lim0[k][2]], S.vol[k])
 InvLimitsStep == chk.limits
 \* C05
 InvCompSane == \A k \in {P, Q} : CompSane(S.vol[k], S.comp[k])
